@@ -58,6 +58,7 @@ def main():
             try:
                 _f = os.environ.get("VERIF_NUMMODE")
                 _tb.NUMMODE = int(_f) if _f else _tb.nummode_of(c)
+                _tb.PRECHIST = _tb.prechist_of(c)
                 r = mod.run(c)
             finally:
                 signal.setitimer(signal.ITIMER_REAL, 0)
